@@ -674,7 +674,7 @@ def _connect_skeletons(P):
     for f in mod.all_funcs():
         # the readers of instance port maps: they parse a connection expression and order the pins most-significant first
         if not any(isinstance(c, ast.Call) and isinstance(c.func, ast.Attribute) and c.func.attr == "parse_cable_concatenation" for c in walk_local(f.node)) or \
-                not any(isinstance(c, ast.Call) and isinstance(c.func, ast.Attribute) and c.func.attr == "sort"
+                not any(isinstance(c, ast.Call) and ((isinstance(c.func, ast.Attribute) and c.func.attr == "sort") or norm(c.func) == "sorted")
                         and any(k.arg == "reverse" and isinstance(k.value, ast.Constant) and k.value.value is True for k in c.keywords) for c in walk_local(f.node)) or \
                 not any(isinstance(x, ast.Attribute) and "instance" in x.attr for x in walk_local(f.node)):
             continue
@@ -685,63 +685,79 @@ def _connect_skeletons(P):
             if len(conn) != 1:
                 continue
             c = conn[0]
-            roles = {}
-            if isinstance(c.args[0], ast.Subscript) and isinstance(lp.target, ast.Name):
-                pins = norm(c.args[0].value)
-                wires = norm(c.func.value.value) if isinstance(c.func.value, ast.Subscript) else norm(c.func.value)
-                idx_names = {x.id for x in ast.walk(c.args[0].slice) if isinstance(x, ast.Name)} - {lp.target.id}
-                roles = {pins: "P", wires: "W", lp.target.id: "i"}
-            elif isinstance(c.args[0], ast.Name) and isinstance(lp.target, ast.Tuple) and isinstance(lp.iter, ast.Call) and norm(lp.iter.func) == "zip" \
-                    and len(lp.iter.args) == len(lp.target.elts):
+            # the loop pairs wire number k of W with a pin of P.  Forms:  for i in range(len(W)): W[i] … P[e]
+            #                                                           for i, w in enumerate(W[, s]): w … P[e]      (i = k + s)
+            #                                                           for …, w, p, … in zip(…, W, P[o:], …): w … p
+            pins = wires = None
+            start = None  # what the loop variable i is ahead of k by
+            pin_index = None  # index expression into P, or ("slice", lower bound) for the zip form
+            ivar = None
+            it = lp.iter
+            if isinstance(c.args[0], ast.Subscript) and isinstance(lp.target, ast.Name) and isinstance(c.func.value, ast.Subscript):
+                pins, wires, ivar, pin_index = norm(c.args[0].value), norm(c.func.value.value), lp.target.id, c.args[0].slice
+            elif isinstance(c.args[0], ast.Subscript) and isinstance(lp.target, ast.Tuple) and len(lp.target.elts) == 2 and isinstance(it, ast.Call) \
+                    and norm(it.func) == "enumerate" and it.args and norm(lp.target.elts[1]) == norm(c.func.value):
+                pins, wires, ivar, pin_index = norm(c.args[0].value), norm(it.args[0]), norm(lp.target.elts[0]), c.args[0].slice
+                start = it.args[1] if len(it.args) > 1 else next((k.value for k in it.keywords if k.arg == "start"), None)
+            elif isinstance(c.args[0], ast.Name) and isinstance(lp.target, ast.Tuple) and isinstance(it, ast.Call) and norm(it.func) == "zip" \
+                    and len(it.args) == len(lp.target.elts):
                 tnames = [norm(t) for t in lp.target.elts]
                 if norm(c.args[0]) not in tnames or norm(c.func.value) not in tnames:
                     continue
-                pins = norm(lp.iter.args[tnames.index(norm(c.args[0]))])
-                wires = norm(lp.iter.args[tnames.index(norm(c.func.value))])
-                idx_names = set()
-                roles = {pins: "P", wires: "W", norm(c.args[0]): "p", norm(c.func.value): "w"}
+                parg = it.args[tnames.index(norm(c.args[0]))]
+                wires = norm(it.args[tnames.index(norm(c.func.value))])
+                if isinstance(parg, ast.Subscript) and isinstance(parg.slice, ast.Slice) and parg.slice.upper is None and parg.slice.step is None:
+                    pins, pin_index = norm(parg.value), ("slice", parg.slice.lower)
+                else:
+                    pins, pin_index = norm(parg), ("slice", None)
             else:
                 continue
             par = getattr(lp, "_parent", None)
             blk = next((getattr(par, fld) for fld in ("body", "orelse") if lp in getattr(par, fld, [])), None)
             if blk is None:
                 continue
-            for k, nme in enumerate(sorted(idx_names)):
-                roles[nme] = "o%d" % k
-            keep = []
-            for st in blk[:blk.index(lp) + 1]:
-                txt = norm(st)
-                mentions = any(re.search(r"(?<![\w.])%s(?![\w])" % re.escape(n_), txt) for n_ in list(idx_names) + [pins])
-                if st is lp or (mentions and (isinstance(st, (ast.If, ast.Assign, ast.AugAssign)) or (isinstance(st, ast.Expr) and ".sort(" in txt))):
-                    if isinstance(st, ast.Assign) and isinstance(st.targets[0], ast.Name) and st.targets[0].id == pins.split(".")[0] and st is not lp:
-                        continue  # where the pin list comes from differs legitimately (named vs positional)
-                    for n_ in sorted(roles, key=len, reverse=True):
-                        txt = re.sub(r"(?<![\w.])%s(?![\w])" % re.escape(n_), roles[n_], txt)
-                    keep.append(txt)
+
+            def offset_class(e):
+                """0, "D" (= max(len(P) - len(W), 0)) or None for an offset expression"""
+                if e is None or (isinstance(e, ast.Constant) and e.value == 0):
+                    return 0
+                want = ("len(%s)" % pins, "len(%s)" % wires)
+
+                def is_diff(x):
+                    return isinstance(x, ast.BinOp) and isinstance(x.op, ast.Sub) and (norm(x.left), norm(x.right)) == want
+
+                def is_max(x):
+                    return isinstance(x, ast.Call) and norm(x.func) == "max" and len(x.args) == 2 and not x.keywords and \
+                        any(is_diff(a_) for a_ in x.args) and any(isinstance(a_, ast.Constant) and a_.value == 0 for a_ in x.args)
+                if is_max(e):
+                    return "D"
+                if isinstance(e, ast.Name):
+                    defs = [a for a in walk_local(f.node) if isinstance(a, ast.Assign) and len(a.targets) == 1 and norm(a.targets[0]) == e.id]
+                    if not defs:
+                        return None
+                    if all(isinstance(a.value, ast.Constant) and a.value.value == 0 for a in defs):
+                        return 0
+                    if all(is_max(a.value) for a in defs):
+                        return "D"
+                    # offset = 0; if len(P) > len(W): offset = len(P) - len(W)
+                    diff = [a for a in defs if is_diff(a.value)]
+                    zero = [a for a in defs if isinstance(a.value, ast.Constant) and a.value.value == 0]
+                    if diff and len(diff) + len(zero) == len(defs):
+                        return "D"
+                return None
             # abstract alignment: with the pins ordered most-significant first, wire k meets pin k ("high": the connection sits at the top of
-            # the port) or pin k + (len(P) - len(W)) ("low": at the bottom); None when the form is not one of those
-            def offset_is_low(name):
-                defs = [a for a in walk_local(f.node) if isinstance(a, ast.Assign) and len(a.targets) == 1 and norm(a.targets[0]) == name]
-                diff = [a for a in defs if isinstance(a.value, ast.BinOp) and isinstance(a.value.op, ast.Sub)
-                        and norm(a.value.left) == "len(%s)" % pins and norm(a.value.right) == "len(%s)" % wires]
-                zero = [a for a in defs if isinstance(a.value, ast.Constant) and a.value.value == 0]
-                return bool(diff) and len(diff) + len(zero) == len(defs)
-            align = None
-            if isinstance(c.args[0], ast.Subscript):
-                ix = c.args[0].slice
-                if isinstance(ix, ast.Name) and ix.id == lp.target.id:
-                    align = "high"
-                elif isinstance(ix, ast.BinOp) and isinstance(ix.op, ast.Add) and {type(ix.left), type(ix.right)} == {ast.Name}:
-                    others = [x.id for x in (ix.left, ix.right) if x.id != lp.target.id]
-                    if len(others) == 1 and offset_is_low(others[0]):
-                        align = "low"
-            else:
-                parg = lp.iter.args[tnames.index(norm(c.args[0]))]
-                if isinstance(parg, ast.Name):
-                    align = "high"
-                elif isinstance(parg, ast.Subscript) and isinstance(parg.slice, ast.Slice) and parg.slice.upper is None and isinstance(parg.slice.lower, ast.Name) \
-                        and offset_is_low(parg.slice.lower.id):
-                    align = "low"
-                    pins = norm(parg.value)
+            # the port) or pin k + max(len(P) - len(W), 0) ("low": at the bottom); None when the form is not one of those
+            total = None
+            s0 = offset_class(start)
+            if isinstance(pin_index, tuple):
+                total = offset_class(pin_index[1])
+            elif isinstance(pin_index, ast.Name) and pin_index.id == ivar:
+                total = s0
+            elif isinstance(pin_index, ast.BinOp) and isinstance(pin_index.op, ast.Add) and ivar in (norm(pin_index.left), norm(pin_index.right)):
+                other = pin_index.right if norm(pin_index.left) == ivar else pin_index.left
+                oc = offset_class(other)
+                total = None if oc is None or s0 is None else (oc if s0 == 0 else (s0 if oc == 0 else None))
+            align = {0: "high", "D": "low"}.get(total)
+            keep = [norm(lp)]
             out.append((f, lp, " ; ".join(keep), align))
     return out
